@@ -99,6 +99,13 @@ def history(rng):
             through = rng.choice([("un", ("sel", ("cmp", "ge", ("ref", c0), ("lit", 0))), mp.DEFAULT, p0),
                                   ("chain", p0, p0), ("un", ("slice", 0, 3), mp.DEFAULT, p0), x])
             add(("un", ("calc", gen.fresh_tag(rng, set(p0[3])), ("add", ("ref", c0), ("lit", 1))), mp.DEFAULT, through))
+    if not it_only and pool and rng.random() < 0.3:
+        # a relation joined with (a filtered copy of) itself: compiling it twice must give the same statement
+        sq = [pp for pp in progs if pp[0] == "leaf" and pp[2][0] == "sql" and pp[3]]
+        if sq:
+            p0 = sq[0]
+            c0 = p0[3][0]
+            add(("join", None, True, False, ("un", ("sel", ("cmp", "ge", ("ref", c0), ("lit", 0))), mp.DEFAULT, p0), p0))
     if not pool:
         return None
     snap = [fingerprint(r) for r in pool]
@@ -126,11 +133,14 @@ def history(rng):
                 add(q)
                 events.append(("factory", jsonable(q)))
             elif kind == "compile" and isinstance(rel.engine, sql.Engine):
+                counters_before = {k: e.relation_name_counter for k, e in w.engines.items()}
                 t1 = to_sql_str(rel.engine.to_executable(rel))
                 t2 = to_sql_str(rel.engine.to_executable(rel))
                 events.append(("compile", i))
                 if t1 != t2:
                     problems.append(f"compiling relation {i} twice gave different SQL")
+                if counters_before != {k: e.relation_name_counter for k, e in w.engines.items()}:
+                    problems.append(f"compiling relation {i} changed an engine's name counter")
             elif kind == "execute":
                 r1, _p1, _x = mp.execute(w, rel)
                 r2, _p2, _y = mp.execute(w, rel)
